@@ -404,6 +404,40 @@ pub fn run(args: &Args) -> Report {
     rep.assumptions.push("an error of the exclude-list lookup is swallowed by make_credential; the statement covers errors while saving or updating, so this is logged, not judged".into());
     let only = replay_index(args);
     let mut index = 0u64;
+    if args.engine.as_deref() == Some("miri") {
+        // Crypto-free subset for the UB interpreter: drop the ceremony while it is still suspended in
+        // the user-validation step or the first store call (polls 0..=3 with collaborators yielding twice),
+        // i.e. half-polled async_trait boxed futures, incl. while the tokio lock is held by another task.
+        let shard: u64 = args.get("shard").and_then(|s| s.parse().ok()).unwrap_or(0);
+        let shards: u64 = args.get("shards").and_then(|s| s.parse().ok()).unwrap_or(1);
+        for (k, sh) in Shape::all().into_iter().enumerate() {
+            if k as u64 % shards != shard {
+                continue;
+            }
+            for n in 0..=3usize {
+                for lock_held in [false, true] {
+                    if lock_held && (sh.client || n == 0) {
+                        continue;
+                    }
+                    rep.eval();
+                    let plan = PlanSpec { yields: 2, cancel_after: Some(n), lock_held, ..Default::default() };
+                    match catch(|| run_one(&sh, &plan)) {
+                        Ok(o) => {
+                            judge(&mut rep, &sh, &plan, &o, index);
+                            if o.result.is_none() {
+                                rep.nontrivial(fnv_str(&format!("{sh:?}|miri-cancel{n}|{lock_held}")));
+                                rep.count("cancel_points_reached");
+                            }
+                        }
+                        Err((sig, d)) => rep.violate(&format!("ceremony {sig}"), d, json!({"index": index, "shape": sh.json(), "plan": plan.json()})),
+                    }
+                    index += 1;
+                }
+            }
+        }
+        rep.exhaustive = false;
+        return rep;
+    }
     let mut run_case = |rep: &mut Report, sh: &Shape, plan: &PlanSpec, index: u64| -> Option<Obs> {
         if only.map_or(false, |o| o != index) {
             return None;
